@@ -101,6 +101,47 @@ def case_table(run, i):
                  sample={"ploidy": ploidy, "male_ref": male_ref, "thresholds": th, "log2": [r[1] for r in rows[:6]], "mode": mode} if i % 131 == 0 else None)
 
 
-WORKLOADS = {"table": (_n, case_table)}
-_Q = {"call.do_call|held": 400, "call.absolute_threshold|held": 400, "call.do_call[allelic]|held": 150, "call.rescale_baf|held": 30}
+def _n_cli(tier):
+    return 32 if tier == "quick" else 300
+
+
+def case_cli(run, i):
+    """`cnvkit.py call -m threshold` on a written .cns: plumbing of -t, --ploidy, -y, --filter (in order), --center-at, and the written file."""
+    import os
+    import shutil
+    from skgenome import tabio
+    from ..monitors import cli_plumb
+    rng = run.rng("cli", i)
+    ploidy = 1 + (i % 4)
+    male_ref = bool((i // 4) % 2)
+    th = _thresholds(rng, i)
+    chrpre = "chr" if i % 3 else ""
+    n = int(rng.integers(5, 60))
+    chroms = sorted(rng.choice(["3", "X", "Y"], n), key=["3", "X", "Y"].index)
+    starts = np.cumsum(rng.integers(1000, 50000, n))
+    lg = np.round(rng.uniform(-4, 4, n), 4)
+    cols = {"chromosome": [chrpre + c for c in chroms], "start": starts, "end": starts + 900, "gene": ["G"] * n, "log2": lg, "probes": [10] * n, "weight": [1.0] * n}
+    filters = [[], ["cn"], ["ampdel"], ["cn", "ampdel"], ["ampdel", "cn"]][i % 5]
+    center_at = [None, None, 0.3][i % 3]
+    d = os.path.join(run.workdir, f"clicall{run.shard}_{i}")
+    os.makedirs(d, exist_ok=True)
+    inf, outf = os.path.join(d, "S.cns"), os.path.join(d, "S.call.cns")
+    with run.monitor_scope():
+        tabio.write(make_cna(cols), inf)
+    argv = ["call", inf, "-m", "threshold", "-t=" + ",".join(repr(t) for t in th), "--ploidy", str(ploidy), "-o", outf]
+    if male_ref:
+        argv.append("-y")
+    for f in filters:
+        argv += ["--filter", f]
+    if center_at:
+        argv += ["--center-at", str(center_at)]
+    expect = dict(method="threshold", ploidy=ploidy, purity=None, male_ref=male_ref, female=None, par=None, filters=filters, thresholds=th, center_at=center_at)
+    run.begin_case("cli", i, cls="cli:threshold" + (":filters" if filters else ""))
+    cli_plumb.check_call_cli(run, rt, inf, outf, argv, expect, lg)
+    shutil.rmtree(d, ignore_errors=True)
+    run.end_case(fp=rt.fingerprint([ploidy, male_ref, th, filters, lg.tolist()], 12), nontrivial=True)
+
+
+WORKLOADS = {"table": (_n, case_table), "cli": (_n_cli, case_cli)}
+_Q = {"cli.call[plumbing]|held": 25, "call.do_call|held": 400, "call.absolute_threshold|held": 400, "call.do_call[allelic]|held": 150, "call.rescale_baf|held": 30}
 QUOTAS = {"quick": _Q, "thorough": _Q}
